@@ -239,8 +239,8 @@ func (r c13Res) String() string {
 	return fmt.Sprintf("exec(affected=%d last_id=%d)", r.Aff, r.LastID)
 }
 
-// sameOutcome compares an actual result with the reference for statement st.
-func sameOutcome(st *c13Stmt, exp, got c13Res) bool {
+// c13SameOutcome compares an actual result with the reference for statement st.
+func c13SameOutcome(st *c13Stmt, exp, got c13Res) bool {
 	if exp.kind() != got.kind() {
 		return false
 	}
@@ -262,7 +262,7 @@ func sameOutcome(st *c13Stmt, exp, got c13Res) bool {
 	return true
 }
 
-func jsonCell(v any) string {
+func c13JSONCell(v any) string {
 	switch x := v.(type) {
 	case nil:
 		return "N"
@@ -284,8 +284,8 @@ func jsonCell(v any) string {
 	}
 }
 
-// parseHTTPResults decodes the "results" array of an HTTP response body.
-func parseHTTPResults(body string) (res []c13Res, topErr string, err error) {
+// c13ParseHTTPResults decodes the "results" array of an HTTP response body.
+func c13ParseHTTPResults(body string) (res []c13Res, topErr string, err error) {
 	var top struct {
 		Results []map[string]any `json:"results"`
 		Error   string           `json:"error"`
@@ -310,7 +310,7 @@ func parseHTTPResults(body string) (res []c13Res, topErr string, err error) {
 				for _, row := range vs {
 					var cells []string
 					for _, v := range row.([]any) {
-						cells = append(cells, jsonCell(v))
+						cells = append(cells, c13JSONCell(v))
 					}
 					r.Vals = append(r.Vals, strings.Join(cells, "|"))
 				}
@@ -330,7 +330,7 @@ func parseHTTPResults(body string) (res []c13Res, topErr string, err error) {
 	return res, top.Error, nil
 }
 
-func protoResults(in []*proto.ExecuteQueryResponse) []c13Res {
+func c13ProtoResults(in []*proto.ExecuteQueryResponse) []c13Res {
 	var out []c13Res
 	for _, x := range in {
 		var r c13Res
@@ -356,7 +356,7 @@ func protoResults(in []*proto.ExecuteQueryResponse) []c13Res {
 					case *proto.Parameter_S:
 						cells = append(cells, "T"+v.S)
 					case *proto.Parameter_B:
-						cells = append(cells, fmt.Sprintf("I%d", btoi(v.B)))
+						cells = append(cells, fmt.Sprintf("I%d", c13Btoi(v.B)))
 					case nil:
 						cells = append(cells, "N")
 					default:
@@ -377,7 +377,7 @@ func protoResults(in []*proto.ExecuteQueryResponse) []c13Res {
 	return out
 }
 
-func btoi(b bool) int {
+func c13Btoi(b bool) int {
 	if b {
 		return 1
 	}
@@ -386,17 +386,17 @@ func btoi(b bool) int {
 
 // ------------------------------------------------------------------ reference model
 
-type execQueryer interface {
+type c13ExecQueryer interface {
 	Exec(query string, args ...any) (sql.Result, error)
 	Query(query string, args ...any) (*sql.Rows, error)
 }
 
-type connEQ struct{ c *sql.Conn }
+type c13ConnEQ struct{ c *sql.Conn }
 
-func (q connEQ) Exec(s string, a ...any) (sql.Result, error) {
+func (q c13ConnEQ) Exec(s string, a ...any) (sql.Result, error) {
 	return q.c.ExecContext(context.Background(), s, a...)
 }
-func (q connEQ) Query(s string, a ...any) (*sql.Rows, error) {
+func (q c13ConnEQ) Query(s string, a ...any) (*sql.Rows, error) {
 	return q.c.QueryContext(context.Background(), s, a...)
 }
 
@@ -425,14 +425,14 @@ func c13Args(st *c13Stmt) []any {
 	return args
 }
 
-// refExec runs one statement on the reference database.
-func refExec(q execQueryer, st *c13Stmt) c13Res {
+// c13RefExec runs one statement on the reference database.
+func c13RefExec(q c13ExecQueryer, st *c13Stmt) c13Res {
 	if st.Rows {
 		rows, err := q.Query(st.SQL, c13Args(st)...)
 		if err != nil {
 			return c13Res{Err: err.Error()}
 		}
-		cols, lines, err := rowsText(rows)
+		cols, lines, err := sqlhRowsText(rows)
 		if err != nil {
 			return c13Res{Err: err.Error()}
 		}
@@ -448,16 +448,16 @@ func refExec(q execQueryer, st *c13Stmt) c13Res {
 	return r
 }
 
-// refApply executes a request on the reference database with the request
+// c13RefApply executes a request on the reference database with the request
 // semantics the property states and returns the expected result list.
-func refApply(db *sql.DB, op *c13Op) ([]c13Res, error) {
+func c13RefApply(db *sql.DB, op *c13Op) ([]c13Res, error) {
 	ctx := context.Background()
 	conn, err := db.Conn(ctx)
 	if err != nil {
 		return nil, err
 	}
 	defer conn.Close()
-	q := connEQ{conn}
+	q := c13ConnEQ{conn}
 	inTx := false
 	if op.Tx || op.Begin {
 		if _, err := q.Exec("BEGIN"); err != nil {
@@ -472,7 +472,7 @@ func refApply(db *sql.DB, op *c13Op) ([]c13Res, error) {
 		if st.SQL == "" {
 			continue
 		}
-		r := refExec(q, st)
+		r := c13RefExec(q, st)
 		out = append(out, r)
 		if r.Err != "" {
 			failed = true
@@ -546,7 +546,7 @@ func c13Run(c *core.Ctx, raw json.RawMessage) {
 		c.Discard("boot-failed: " + err.Error())
 		return
 	}
-	ref, err := openMemDB(plainDriver)
+	ref, err := sqlhOpenMemDB(sqlhPlainDriver)
 	if err != nil {
 		c.Discard("oracle-db: " + err.Error())
 		return
@@ -594,7 +594,7 @@ func c13Run(c *core.Ctx, raw json.RawMessage) {
 	}
 	// checkState compares every up node with the reference state.
 	checkState := func(when string) bool {
-		want, err := dumpQ(ref)
+		want, err := sqlhDumpQ(ref)
 		if err != nil {
 			c.Discard("oracle-db dump: " + err.Error())
 			return false
@@ -618,11 +618,11 @@ func c13Run(c *core.Ctx, raw json.RawMessage) {
 	}
 	// cloneRef returns a copy of the reference database (for "maybe applied").
 	cloneRef := func() (*sql.DB, error) {
-		cp, err := openMemDB(plainDriver)
+		cp, err := sqlhOpenMemDB(sqlhPlainDriver)
 		if err != nil {
 			return nil, err
 		}
-		d, err := refSQLDump(ref)
+		d, err := c13RefSQLDump(ref)
 		if err != nil {
 			cp.Close()
 			return nil, err
@@ -765,7 +765,7 @@ func c13Run(c *core.Ctx, raw json.RawMessage) {
 					st := &op.Stmts[i]
 					ps := &proto.Statement{Sql: st.SQL, ForceQuery: st.Rows}
 					for _, a := range c13Args(st) {
-						ps.Parameters = append(ps.Parameters, protoParam(a))
+						ps.Parameters = append(ps.Parameters, c13ProtoParam(a))
 					}
 					er.Request.Statements = append(er.Request.Statements, ps)
 				}
@@ -774,7 +774,7 @@ func c13Run(c *core.Ctx, raw json.RawMessage) {
 				}
 				var res []*proto.ExecuteQueryResponse
 				res, _, _, callErr = tgt.Proxy.Execute(context.Background(), er, nil, 8*time.Second, 0, false)
-				gotRes = protoResults(res)
+				gotRes = c13ProtoResults(res)
 				if callErr == nil {
 					httpCode = 200
 				}
@@ -857,7 +857,7 @@ func c13Run(c *core.Ctx, raw json.RawMessage) {
 		}
 		if op.Ep != "proxy" && httpCode == 200 {
 			var perr error
-			gotRes, topErr, perr = parseHTTPResults(httpBody)
+			gotRes, topErr, perr = c13ParseHTTPResults(httpBody)
 			if perr != nil {
 				c.Violate("bad-response", "request %d: cannot decode response body %.300s: %v", oi, httpBody, perr)
 				return
@@ -878,7 +878,7 @@ func c13Run(c *core.Ctx, raw json.RawMessage) {
 			c.Discard("oracle-db clone: " + err.Error())
 			return
 		}
-		exp, err := refApply(ref, op)
+		exp, err := c13RefApply(ref, op)
 		if err != nil {
 			before.Close()
 			c.Discard("oracle-db apply: " + err.Error())
@@ -898,8 +898,8 @@ func c13Run(c *core.Ctx, raw json.RawMessage) {
 			// outcome unknown to the client: the cluster must be in the state
 			// "applied as a whole" (reference after) or "not applied" (reference before)
 			c.Probe("requests_with_unknown_outcome")
-			after, _ := dumpQ(ref)
-			pre, _ := dumpQ(before)
+			after, _ := sqlhDumpQ(ref)
+			pre, _ := sqlhDumpQ(before)
 			var got string
 			for _, n := range s.Nodes[1:] {
 				if n.Up {
@@ -971,7 +971,7 @@ func c13Run(c *core.Ctx, raw json.RawMessage) {
 			}
 			if len(gotRes) != len(expList) {
 				c.Violate("result-mismatch", "request %d (%s tx=%v roe=%v, %d non-empty statements): %d results returned, %d expected\n  got:      %v\n  expected: %v\n  stmts: %s",
-					oi, op.Ep, op.Tx, op.Roe, nonEmpty, len(gotRes), len(expList), gotRes, expList, stmtList(op))
+					oi, op.Ep, op.Tx, op.Roe, nonEmpty, len(gotRes), len(expList), gotRes, expList, c13StmtList(op))
 				return
 			}
 			j := 0
@@ -983,8 +983,8 @@ func c13Run(c *core.Ctx, raw json.RawMessage) {
 				if j >= len(expList) {
 					break
 				}
-				if !sameOutcome(st, expList[j], gotRes[j]) {
-					c.Violate("result-mismatch", "request %d (%s tx=%v roe=%v): result %d (statement %q) is %v, expected %v\n  stmts: %s", oi, op.Ep, op.Tx, op.Roe, j, st.SQL, gotRes[j], expList[j], stmtList(op))
+				if !c13SameOutcome(st, expList[j], gotRes[j]) {
+					c.Violate("result-mismatch", "request %d (%s tx=%v roe=%v): result %d (statement %q) is %v, expected %v\n  stmts: %s", oi, op.Ep, op.Tx, op.Roe, j, st.SQL, gotRes[j], expList[j], c13StmtList(op))
 					return
 				}
 				if expList[j].Err != "" && expList[j].Err != gotRes[j].Err {
@@ -993,7 +993,7 @@ func c13Run(c *core.Ctx, raw json.RawMessage) {
 				j++
 			}
 		}
-		if !checkState(fmt.Sprintf("after request %d (%s tx=%v roe=%v begin=%v) stmts: %s", oi, op.Ep, op.Tx, op.Roe, op.Begin, stmtList(op))) {
+		if !checkState(fmt.Sprintf("after request %d (%s tx=%v roe=%v begin=%v) stmts: %s", oi, op.Ep, op.Tx, op.Roe, op.Begin, c13StmtList(op))) {
 			return
 		}
 	}
@@ -1017,11 +1017,11 @@ func c13Run(c *core.Ctx, raw json.RawMessage) {
 	}
 	checkState("at the end, all nodes restarted")
 	c.Res.Trivial = c.Res.Probes["requests_definite"] == 0
-	d, _ := dumpQ(ref)
+	d, _ := sqlhDumpQ(ref)
 	c.Sig(fmt.Sprint(len(d)))
 }
 
-func stmtList(op *c13Op) string {
+func c13StmtList(op *c13Op) string {
 	var parts []string
 	for _, st := range op.Stmts {
 		parts = append(parts, fmt.Sprintf("%q", st.SQL))
@@ -1029,7 +1029,7 @@ func stmtList(op *c13Op) string {
 	return strings.Join(parts, ", ")
 }
 
-func protoParam(a any) *proto.Parameter {
+func c13ProtoParam(a any) *proto.Parameter {
 	name := ""
 	if na, ok := a.(sql.NamedArg); ok {
 		name, a = na.Name, na.Value
@@ -1049,9 +1049,9 @@ func protoParam(a any) *proto.Parameter {
 	return &proto.Parameter{Name: name}
 }
 
-// refSQLDump returns statements that rebuild the reference database (schema,
+// c13RefSQLDump returns statements that rebuild the reference database (schema,
 // rows, AUTOINCREMENT counters).
-func refSQLDump(db *sql.DB) ([]string, error) {
+func c13RefSQLDump(db *sql.DB) ([]string, error) {
 	var out []string
 	rows, err := db.Query(`SELECT name, sql FROM sqlite_master WHERE type='table' AND name NOT LIKE 'sqlite_%' ORDER BY name`)
 	if err != nil {
